@@ -350,7 +350,7 @@ def _from_config_run(index, f, world: dict, flags: dict):
     from sa.fold import EvalRaised, Obj
 
     events: list = []
-    file_ds = Obj("dataset", {"cfg": Obj("cfg", {"name": world.get("file_cfg", "req")}), "origin": "file"})
+    file_ds = Obj("dataset", {"cfg": Obj("cfg", {"name": world.get("file_cfg", "req")}), "origin": "file", "__len__": 7})
 
     def hook(ev, node, env):
         d = dotted_of(node.func) or ""
@@ -379,11 +379,11 @@ def _from_config_run(index, f, world: dict, flags: dict):
             raise EvalRaised("NotImplementedError", "no download")
         if d.endswith(".generate"):
             events.append(("generate",))
-            return Obj("dataset", {"cfg": Obj("cfg", {"name": "req"}), "origin": "generated"})
+            return Obj("dataset", {"cfg": Obj("cfg", {"name": "req"}), "origin": "generated", "__len__": world.get("generated_len", 7)})
         if d.endswith("._apply_filters_from_config"):
             o = ev.ev(node.func.value, env)
             events.append(("filters",))
-            return Obj("dataset", {"cfg": o.attrs["cfg"], "origin": o.attrs["origin"] + "+filters"})
+            return Obj("dataset", {"cfg": o.attrs["cfg"], "origin": o.attrs["origin"] + "+filters", "__len__": o.attrs.get("__len__", 7)})
         if d.endswith(".diff"):
             other = ev.ev(node.args[0], env)
             me = ev.ev(node.func.value, env)
@@ -426,6 +426,8 @@ def rule_K7(ctx: Ctx) -> None:
               ({"file": "readable", "file_cfg": "other", "diff": _META_ONLY}, {"allow_generation_metadata_filter_mismatch": False}, "mismatch"),
               ({"file": "readable", "file_cfg": "other", "diff": _META_PLUS}, {}, "mismatch")]
     worlds += [({"file": "unreadable", "exc": e_}, {}, "fresh") for e_ in _READ_FAILURES]
+    # the configured filters may legitimately leave no maze at all: an empty dataset (falsy: it has __len__) is still the dataset asked for
+    worlds += [({"file": "absent", "generated_len": 0}, {}, "fresh"), ({"file": "absent", "generated_len": 0}, {"save_local": False, "load_local": False}, "fresh-nosave")]
     bad, unk = [], []
     for world, flags, want in worlds:
         try:
@@ -436,7 +438,10 @@ def rule_K7(ctx: Ctx) -> None:
         kinds = [e_[0] for e_ in ev_]
         paths = {e_[1] for e_ in ev_ if e_[0] in ("exists", "read", "save")}
         why = []
-        if want == "fresh":
+        if want == "fresh-nosave":
+            if out != ("return", "generated+filters"):
+                why.append(f"outcome {out}, expected the freshly generated (here: empty) dataset")
+        elif want == "fresh":
             if out != ("return", "generated+filters"):
                 why.append(f"outcome {out}, expected the freshly generated dataset with the configured filters applied")
             if "save" not in kinds:
